@@ -482,7 +482,7 @@ def gMethodCallBody : G :=
       mk "method_call" id.ident (Range.span id.rng (v.nth 3).rng) (v.nth 2).kids)
     (seqL [.ref nIdentifier, .tok Kind.OBracket, sepListCtx (.ref nExpr) nExprRec, .tok Kind.CBracket])
 
-def gMethodCall : G := .memo 2 false
+def gMethodCall : G := .memo 2 true
 
 def gArrayAccess : G :=
   .map (fun v =>
